@@ -864,6 +864,38 @@ pub fn families_c14(subjects: &[Subj]) -> Vec<Pair> {
 			}
 		}
 	}
+	// K9c: the same with user-supplied raw locks whose guard marker is `GuardSend`
+	// (a blanket `Send` impl keyed on `R::GuardMarker: Send`, as lock_api's own
+	// guards have, would make key-carrying guards of such locks sendable)
+	{
+		let header = format!(
+			"{PRELUDE}\npub struct SendRawM;\nunsafe impl lock_api::RawMutex for SendRawM {{\n    const INIT: Self = SendRawM;\n    type GuardMarker = lock_api::GuardSend;\n    fn lock(&self) {{}}\n    fn try_lock(&self) -> bool {{ true }}\n    unsafe fn unlock(&self) {{}}\n}}\npub struct SendRawR;\nunsafe impl lock_api::RawRwLock for SendRawR {{\n    const INIT: Self = SendRawR;\n    type GuardMarker = lock_api::GuardSend;\n    fn lock_shared(&self) {{}}\n    fn try_lock_shared(&self) -> bool {{ true }}\n    unsafe fn unlock_shared(&self) {{}}\n    fn lock_exclusive(&self) {{}}\n    fn try_lock_exclusive(&self) -> bool {{ true }}\n    unsafe fn unlock_exclusive(&self) {{}}\n}}\n"
+		);
+		let mref = "MutexRef<'static, i32, SendRawM>";
+		let carriers: Vec<(String, String)> = vec![
+			("MutexGuard<GuardSend raw>".into(), "MutexGuard<'static, i32, SendRawM>".into()),
+			("RwLockReadGuard<GuardSend raw>".into(), "RwLockReadGuard<'static, i32, SendRawR>".into()),
+			("RwLockWriteGuard<GuardSend raw>".into(), "RwLockWriteGuard<'static, i32, SendRawR>".into()),
+			("LockGuard<(MutexRef<GuardSend raw>,)>".into(), format!("LockGuard<({mref},)>")),
+			("LockGuard<Box<[RwLockReadRef<GuardSend raw>]>>".into(), "LockGuard<Box<[RwLockReadRef<'static, i32, SendRawR>]>>".into()),
+			("PoisonGuard<MutexRef<GuardSend raw>>".into(), format!("PoisonGuard<'static, {mref}>")),
+			("TryLockPoisonableError<MutexRef<GuardSend raw>>".into(), format!("TryLockPoisonableError<'static, {mref}>")),
+		];
+		for (cn, cty) in &carriers {
+			for (wn, wty) in [("bare", "$K"), ("Option", "Option<$K>"), ("Box", "Box<$K>")] {
+				let ty = wty.replace("$K", cty);
+				let prog = |bound: &str| format!("{header}fn need<X{bound}>() {{}}\npub fn probe() {{\n//<<\n    need::<{ty}>();\n//>>\n}}\n");
+				v.push(Pair {
+					prop: "C14".into(),
+					family: "K9-key-carrying-type-is-send".into(),
+					name: format!("{wn} of {cn}"),
+					twin: prog(": ?Sized"),
+					offending: prog(": Send"),
+					std_offending: None,
+				});
+			}
+		}
+	}
 	// K3b: nothing that carries a key or a hold can be duplicated or conjured up
 	{
 		let header = format!(
@@ -1322,6 +1354,20 @@ pub fn families_mutation_after_check() -> Vec<Pair> {
 		];
 		for (what, twin, off) in cases {
 			v.push(pair_from("C01", "C01-mutation-after-check", format!("{lockname}: {what}"), &wrap_fn(&format!("{pre}@@\n")), &twin, &off));
+		}
+		// a boxed collection caches its sorted lock list at construction: no route
+		// may hand out `&mut Vec<lock>` of its child, not even when it owns the locks
+		let twin_owned = "    let v: &mut Vec<_> = owned.as_mut();\n    let _ = v.len();".to_string();
+		let pre2 = format!("{pre}    let mut boxed = LockCollection::new(vec![{ctor}]);\n");
+		let routes: Vec<(&str, String)> = vec![
+			("boxed(owned content): as_mut() -> &mut Vec", format!("    let v: &mut Vec<{lockname}<i32>> = boxed.as_mut();\n    v.push({ctor});")),
+			("boxed(owned content): child_mut() -> &mut Vec", format!("    let v: &mut Vec<{lockname}<i32>> = boxed.child_mut();\n    v.push({ctor});")),
+			("boxed(owned content): BorrowMut<Vec>", format!("    let v: &mut Vec<{lockname}<i32>> = std::borrow::BorrowMut::borrow_mut(&mut boxed);\n    v.push({ctor});")),
+			("boxed(owned content): DerefMut to Vec", format!("    let v: &mut Vec<{lockname}<i32>> = &mut *boxed;\n    v.push({ctor});")),
+			("boxed(owned content): From<&mut LockCollection> for &mut Vec", format!("    let v: &mut Vec<{lockname}<i32>> = (&mut boxed).into();\n    v.push({ctor});")),
+		];
+		for (what, off) in routes {
+			v.push(pair_from("C01", "C01-mutation-after-check", format!("{lockname}: {what}"), &wrap_fn(&format!("{pre2}@@\n")), &twin_owned, &off));
 		}
 	}
 	v
